@@ -1,4 +1,6 @@
-(* unroll / space_unroll / roll as a state machine: what roll() restores, for every call history. *)
+(* unroll / space_unroll / roll as a state machine (behaviour after the fix commits 225c39f, 5a2f473):
+   roll() restores circuit and register exactly, for every call history; the lock flag is only ever
+   changed by lock(). *)
 From Coq Require Import List ZArith Bool Arith Lia.
 Import ListNotations.
 From SFV Require Import C13.Model.
@@ -6,29 +8,19 @@ From SFV Require Import C13.Model.
 Lemma register_of_true : forall n i, register_of i (repeat true n) = seq i n.
 Proof. induction n; intros; simpl; [reflexivity|]. now rewrite IHn. Qed.
 
-Lemma register_of_app : forall a b i, register_of i (a ++ b) = register_of i a ++ register_of (i + length a) b.
-Proof.
-  induction a as [|x a IH]; intros; simpl.
-  - now rewrite Nat.add_0_r.
-  - destruct x; simpl; rewrite IH; replace (S i + length a) with (i + S (length a)) by lia; reflexivity.
-Qed.
-
-Lemma register_of_dead : forall d i, Forall (fun b => b = false) d -> register_of i d = [].
-Proof. induction d; intros i H; [reflexivity|]. inversion H; subst. simpl. auto. Qed.
-
 Lemma rev_repeat : forall A (x : A) k, rev (repeat x k) = repeat x k.
 Proof.
   induction k; [reflexivity|]. simpl. rewrite IHk.
   clear. induction k; [reflexivity|]. simpl. now rewrite IHk.
 Qed.
 
-Lemma deact_repeat : forall k Y, deact_from_end k (repeat true k ++ Y) = repeat false k ++ Y.
+Lemma remove_repeat : forall k Y, remove_from_end k (repeat true k ++ Y) = Y.
 Proof. induction k; intros; simpl; [destruct Y; reflexivity|]. now rewrite IHk. Qed.
 
-Lemma delete_last_tail : forall k X, delete_last k (X ++ repeat true k) = X ++ repeat false k.
+Lemma delete_last_tail : forall k X, delete_last k (X ++ repeat true k) = X.
 Proof.
-  intros. unfold delete_last. rewrite rev_app_distr, rev_repeat, deact_repeat.
-  rewrite rev_app_distr, rev_involutive, rev_repeat. reflexivity.
+  intros. unfold delete_last. rewrite rev_app_distr, rev_repeat, remove_repeat.
+  apply rev_involutive.
 Qed.
 
 Section Histories.
@@ -38,12 +30,11 @@ Section Histories.
   Variable cs : list rcmd.
   Let n := concurr N.
 
-  (* reachable states: the original n references, then deactivated leftovers of earlier
-     space-unrollings, then the k references added by the current space-unrolling *)
+  (* reachable states: the original n references followed by the k references added by the current
+     space-unrolling; never an inactive reference *)
   Definition Inv (st : pstate) : Prop :=
-    exists dead k,
-      st_regs st = repeat true n ++ dead ++ repeat true k /\
-      Forall (fun b => b = false) dead /\
+    exists k,
+      st_regs st = repeat true n ++ repeat true k /\
       st_init st = (Z.of_nat n + Z.of_nat k)%Z /\
       match st_space st with
       | None => k = 0
@@ -52,73 +43,55 @@ Section Histories.
       (is_unrolled st = false -> st_circ st = CRolled /\ st_shots st = None).
 
   Definition Rolled (st : pstate) : Prop :=
-    st_circ st = CRolled /\ register st = seq 0 n /\ st_init st = Z.of_nat n /\
+    st_circ st = CRolled /\ st_regs st = repeat true n /\ st_init st = Z.of_nat n /\
     st_unrolled st = None /\ st_space st = None /\ st_shots st = None.
 
-  Lemma Inv_locked : forall c r i l u s o a l',
-    Inv (mkS c r i l u s o a) -> Inv (mkS c r i l' u s o a).
-  Proof. intros. exact H. Qed.
-
-  Lemma reg_orig : forall dead, Forall (fun b => b = false) dead ->
-    register_of 0 (repeat true n ++ dead ++ repeat true 0) = seq 0 n.
+  Lemma roll_locked : forall st, st_locked (do_roll st) = st_locked st.
   Proof.
-    intros dead Hd. simpl. rewrite app_nil_r, register_of_app, register_of_true.
-    rewrite register_of_dead by exact Hd. now rewrite app_nil_r.
+    intros st. unfold do_roll. destruct (negb (is_unrolled st)); [reflexivity|].
+    destruct (st_space st); [destruct (0 <? st_added st)%Z|]; reflexivity.
   Qed.
 
-  Lemma dead_ext : forall dead k, Forall (fun b => b = false) dead ->
-    Forall (fun b => b = false) (dead ++ repeat false k).
+  Lemma roll_spec : forall st, Inv st -> Inv (do_roll st) /\ Rolled (do_roll st).
   Proof.
-    intros. apply Forall_app. split; [assumption|]. apply Forall_forall. intros x Hx. now apply repeat_spec in Hx.
-  Qed.
-
-  Ltac fin := try assumption; try reflexivity; try lia; try discriminate.
-
-  Lemma roll_spec : forall st, Inv st -> Inv (do_roll st) /\ Rolled (do_roll st) /\ st_locked (do_roll st) = st_locked st.
-  Proof.
-    intros st (dead & k & Hr & Hd & Hi & Hs & Hc).
+    intros st (k & Hr & Hi & Hs & Hc).
     unfold do_roll. destruct (is_unrolled st) eqn:U; simpl.
     - destruct (st_space st) eqn:S.
       + destruct Hs as [Hpos Hneg]. destruct (0 <? st_added st)%Z eqn:A.
         * apply Z.ltb_lt in A. specialize (Hpos A).
           assert (Ek : Z.to_nat (st_added st) = k) by lia.
-          assert (Er : delete_last (Z.to_nat (st_added st)) (st_regs st) = repeat true n ++ (dead ++ repeat false k) ++ repeat true 0).
-          { rewrite Ek, Hr. rewrite !app_assoc. rewrite delete_last_tail. simpl. now rewrite app_nil_r, <- !app_assoc. }
-          split; [|split].
-          -- exists (dead ++ repeat false k), 0. simpl. rewrite Er.
-             split; [reflexivity|]. split; [apply dead_ext; exact Hd|]. split; [lia|]. split; [reflexivity|].
-             intros _. split; reflexivity.
-          -- unfold Rolled, register. simpl. rewrite Er. rewrite reg_orig by (apply dead_ext; exact Hd).
+          assert (Er : delete_last (Z.to_nat (st_added st)) (st_regs st) = repeat true n)
+            by (rewrite Ek, Hr; apply delete_last_tail).
+          split.
+          -- exists 0. simpl. rewrite Er, app_nil_r.
+             split; [reflexivity|]. split; [lia|]. split; [reflexivity|]. intros _. split; reflexivity.
+          -- unfold Rolled. simpl. rewrite Er.
              split; [reflexivity|]. split; [reflexivity|]. split; [lia|]. repeat split.
-          -- reflexivity.
-        * apply Z.ltb_ge in A. specialize (Hneg A). subst k.
-          split; [|split].
-          -- exists dead, 0. simpl. split; [exact Hr|]. split; [exact Hd|]. split; [exact Hi|]. split; [reflexivity|].
-             intros _. split; reflexivity.
-          -- unfold Rolled, register. simpl. rewrite Hr, Hi. rewrite reg_orig by exact Hd.
-             split; [reflexivity|]. split; [reflexivity|]. split; [lia|]. repeat split.
-          -- reflexivity.
-      + subst k. split; [|split].
-        * exists dead, 0. simpl. split; [exact Hr|]. split; [exact Hd|]. split; [exact Hi|]. split; [reflexivity|].
-          intros _. split; reflexivity.
-        * unfold Rolled, register. simpl. rewrite Hr, Hi. rewrite reg_orig by exact Hd.
-          split; [reflexivity|]. split; [reflexivity|]. split; [lia|]. repeat split.
-        * reflexivity.
+        * apply Z.ltb_ge in A. specialize (Hneg A). subst k. simpl in Hr, Hi. rewrite app_nil_r in Hr.
+          split.
+          -- exists 0. simpl. rewrite app_nil_r.
+             split; [exact Hr|]. split; [exact Hi|]. split; [reflexivity|]. intros _. split; reflexivity.
+          -- unfold Rolled. simpl.
+             split; [reflexivity|]. split; [exact Hr|]. split; [lia|]. repeat split.
+      + subst k. simpl in Hr, Hi. rewrite app_nil_r in Hr. split.
+        * exists 0. simpl. rewrite app_nil_r.
+          split; [exact Hr|]. split; [exact Hi|]. split; [reflexivity|]. intros _. split; reflexivity.
+        * unfold Rolled. simpl.
+          split; [reflexivity|]. split; [exact Hr|]. split; [lia|]. repeat split.
     - destruct (Hc eq_refl) as [Hc1 Hc2].
       unfold is_unrolled in U. destruct (st_unrolled st) eqn:Un; [discriminate|].
-      destruct (st_space st) eqn:S; [discriminate|]. subst k.
-      split; [|split].
-      + exists dead, 0. rewrite S. split; [exact Hr|]. split; [exact Hd|]. split; [exact Hi|]. split; [reflexivity|].
+      destruct (st_space st) eqn:S; [discriminate|]. subst k. simpl in Hr, Hi. rewrite app_nil_r in Hr.
+      split.
+      + exists 0. rewrite S, app_nil_r. split; [exact Hr|]. split; [exact Hi|]. split; [reflexivity|].
         intros _. split; assumption.
-      + unfold Rolled, register. rewrite Hr, Hi. rewrite reg_orig by exact Hd.
-        split; [exact Hc1|]. split; [reflexivity|]. split; [lia|]. split; [exact Un|]. split; [exact S|exact Hc2].
-      + reflexivity.
+      + unfold Rolled.
+        split; [exact Hc1|]. split; [exact Hr|]. split; [lia|]. split; [exact Un|]. split; [exact S|exact Hc2].
   Qed.
 
   Lemma Inv_init : Inv (init_state N).
   Proof.
-    exists [], 0. unfold init_state. simpl. fold n. rewrite app_nil_r.
-    repeat split; try reflexivity; try constructor. lia.
+    exists 0. unfold init_state. simpl. fold n. rewrite app_nil_r.
+    repeat split; try reflexivity. lia.
   Qed.
 
   Ltac notrolled := let X := fresh in intros X; exfalso; revert X; unfold is_unrolled; simpl;
@@ -129,40 +102,31 @@ Section Histories.
     intros s st H. unfold do_unroll.
     destruct (st_unrolled st) eqn:U.
     - destruct (match st_shots st with Some s0 => s0 =? s | None => false end).
-      + simpl. destruct H as (dead & k & Hr & Hd & Hi & Hs & Hc).
-        exists dead, k. simpl.
-        split; [exact Hr|]. split; [exact Hd|]. split; [exact Hi|]. split; [exact Hs|]. notrolled.
+      + simpl. destruct H as (k & Hr & Hi & Hs & Hc).
+        exists k. simpl. split; [exact Hr|]. split; [exact Hi|]. split; [exact Hs|]. notrolled.
       + cbv zeta.
-        set (st0 := mkS (st_circ st) (st_regs st) (st_init st) false (Some l) (st_space st) (st_shots st) (st_added st)).
-        assert (H0 : Inv st0).
-        { destruct H as (dead & k & Hr & Hd & Hi & Hs & Hc). exists dead, k. simpl.
-          split; [exact Hr|]. split; [exact Hd|]. split; [exact Hi|]. split; [exact Hs|]. notrolled. }
-        destruct (roll_spec st0 H0) as ((dead & k & Hr & Hd & Hi & Hs & Hc) & (R1 & R2 & R3 & R4 & R5 & R6) & _).
-        simpl. exists dead, k. simpl. rewrite R5 in Hs.
-        split; [exact Hr|]. split; [exact Hd|]. split; [exact Hi|]. split; [exact Hs|]. notrolled.
+        destruct (roll_spec st H) as ((k & Hr & Hi & Hs & Hc) & (R1 & R2 & R3 & R4 & R5 & R6)).
+        simpl. exists k. simpl. rewrite R5 in Hs.
+        split; [exact Hr|]. split; [exact Hi|]. split; [exact Hs|]. notrolled.
     - destruct (st_space st) eqn:S.
-      + simpl. destruct H as (dead & k & Hr & Hd & Hi & Hs & Hc).
-        exists dead, k. simpl. rewrite S in Hs.
-        split; [exact Hr|]. split; [exact Hd|]. split; [exact Hi|]. split; [exact Hs|]. notrolled.
-      + simpl. destruct H as (dead & k & Hr & Hd & Hi & Hs & Hc).
-        exists dead, k. simpl. rewrite S in Hs.
-        split; [exact Hr|]. split; [exact Hd|]. split; [exact Hi|]. split; [exact Hs|]. notrolled.
+      + simpl. exact H.
+      + simpl. destruct H as (k & Hr & Hi & Hs & Hc).
+        exists k. simpl. rewrite S in Hs.
+        split; [exact Hr|]. split; [exact Hi|]. split; [exact Hs|]. notrolled.
   Qed.
 
-  Lemma Inv_space_fresh : forall s lk st, Inv st -> Inv (fst (do_space_unroll_fresh N sh T cs s lk st)).
+  Lemma Inv_space_fresh : forall s st, Inv st -> Inv (fst (do_space_unroll_fresh N sh T cs s st)).
   Proof.
-    intros s lk st H. unfold do_space_unroll_fresh. cbv zeta.
-    set (st0 := mkS (st_circ st) (st_regs st) (st_init st) false (st_unrolled st) (st_space st) (st_shots st) (st_added st)).
-    assert (H0 : Inv st0) by exact H.
-    destruct (roll_spec st0 H0) as ((dead & k & Hr & Hd & Hi & Hs & Hc) & (R1 & R2 & R3 & R4 & R5 & R6) & _).
-    rewrite R5 in Hs. subst k. simpl in Hr, Hi.
-    set (added := (Z.of_nat T - st_init (do_roll st0) + (Z.of_nat (concurr N) - 1))%Z).
+    intros s st H. unfold do_space_unroll_fresh. cbv zeta.
+    destruct (roll_spec st H) as ((k & Hr & Hi & Hs & Hc) & (R1 & R2 & R3 & R4 & R5 & R6)).
+    rewrite R5 in Hs. subst k. simpl in Hr, Hi. rewrite app_nil_r in Hr.
+    set (added := (Z.of_nat T - st_init (do_roll st) + (Z.of_nat (concurr N) - 1))%Z).
     simpl. destruct (0 <? added)%Z eqn:A.
-    - apply Z.ltb_lt in A. exists dead, (Z.to_nat added). simpl.
-      split; [rewrite Hr; now rewrite app_nil_r, <- app_assoc|]. split; [exact Hd|].
+    - apply Z.ltb_lt in A. exists (Z.to_nat added). simpl.
+      split; [rewrite Hr; reflexivity|].
       split; [rewrite Hi; fold n; lia|]. split; [split; intros; lia|]. notrolled.
-    - apply Z.ltb_ge in A. exists dead, 0. simpl.
-      split; [exact Hr|]. split; [exact Hd|]. split; [rewrite Hi; reflexivity|]. split; [split; intros; [lia|reflexivity]|]. notrolled.
+    - apply Z.ltb_ge in A. exists 0. simpl. rewrite app_nil_r.
+      split; [exact Hr|]. split; [rewrite Hi; reflexivity|]. split; [split; intros; [lia|reflexivity]|]. notrolled.
   Qed.
 
   Lemma Inv_space : forall s st, Inv st -> Inv (fst (do_space_unroll N sh T cs s st)).
@@ -170,9 +134,9 @@ Section Histories.
     intros s st H. unfold do_space_unroll.
     destruct (st_space st) eqn:S; [|apply Inv_space_fresh; exact H].
     destruct (match st_shots st with Some s0 => s0 =? s | None => false end); [|apply Inv_space_fresh; exact H].
-    simpl. destruct H as (dead & k & Hr & Hd & Hi & Hs & Hc).
-    exists dead, k. simpl. rewrite S in Hs.
-    split; [exact Hr|]. split; [exact Hd|]. split; [exact Hi|]. split; [exact Hs|]. notrolled.
+    simpl. destruct H as (k & Hr & Hi & Hs & Hc).
+    exists k. simpl. rewrite S in Hs.
+    split; [exact Hr|]. split; [exact Hi|]. split; [exact Hs|]. notrolled.
   Qed.
 
   Lemma Inv_step : forall st c, Inv st -> Inv (fst (step N sh T cs st c)).
@@ -187,43 +151,57 @@ Section Histories.
   Lemma Inv_run : forall h st, Inv st -> Inv (run_calls N sh T cs st h).
   Proof. induction h; intros st H; simpl; [exact H|]. apply IHh. apply Inv_step. exact H. Qed.
 
-  (* After any history of calls, roll() gives back the rolled circuit, the original list of ACTIVE
-     register references, init_num_subsystems, empty caches, and leaves the lock flag alone. *)
-  Theorem roll_restores_active : forall h,
-    let st := run_calls N sh T cs (init_state N) h in
-    Rolled (do_roll st) /\ st_locked (do_roll st) = st_locked st.
+  (* the lock flag is changed by lock() only -- in ANY state, reachable or not *)
+  Lemma step_locked : forall st c, c <> Lock -> st_locked (fst (step N sh T cs st c)) = st_locked st.
   Proof.
-    intros h st. destruct (roll_spec st (Inv_run h _ Inv_init)) as (_ & R & L). split; assumption.
+    intros st c Hc. destruct c; simpl; try contradiction.
+    - unfold do_unroll. destruct (st_unrolled st).
+      + destruct (match st_shots st with Some s0 => s0 =? shots | None => false end); reflexivity.
+      + destruct (st_space st); reflexivity.
+    - unfold do_space_unroll, do_space_unroll_fresh.
+      destruct (st_space st); [destruct (match st_shots st with Some s0 => s0 =? shots | None => false end)|]; reflexivity.
+    - apply roll_locked.
+  Qed.
+
+  Definition is_lock (c : call) : bool := match c with Lock => true | _ => false end.
+
+  Lemma run_locked : forall h st,
+    st_locked (run_calls N sh T cs st h) = st_locked st || existsb is_lock h.
+  Proof.
+    induction h; intros st; simpl; [now rewrite orb_false_r|].
+    rewrite IHh. destruct a; try (rewrite step_locked by discriminate; reflexivity).
+    simpl. now rewrite orb_true_r.
+  Qed.
+
+  (* After any history of calls, roll() restores the circuit, the WHOLE register (every RegRef and
+     its active flag), init_num_subsystems and the caches exactly, and the lock flag is what the
+     lock() calls of the history made it. *)
+  Theorem roll_restores : forall h,
+    let st := run_calls N sh T cs (init_state N) h in
+    st_circ (do_roll st) = CRolled /\
+    st_regs (do_roll st) = st_regs (init_state N) /\
+    st_init (do_roll st) = st_init (init_state N) /\
+    st_unrolled (do_roll st) = None /\ st_space (do_roll st) = None /\ st_shots (do_roll st) = None /\
+    st_locked (do_roll st) = existsb is_lock h.
+  Proof.
+    intros h st. destruct (roll_spec st (Inv_run h _ Inv_init)) as (_ & R1 & R2 & R3 & R4 & R5 & R6).
+    repeat (split; [assumption|]). rewrite roll_locked. unfold st. rewrite run_locked. reflexivity.
+  Qed.
+
+  (* an unroll / space_unroll after any history (ending rolled or not) that starts from the rolled
+     form builds its circuit on the original register: the same as on a fresh program *)
+  Theorem unroll_after_history_is_fresh : forall h s,
+    let st := do_roll (run_calls N sh T cs (init_state N) h) in
+    st_circ (fst (do_unroll N sh T cs s st)) = st_circ (fst (do_unroll N sh T cs s (init_state N))) /\
+    st_circ (fst (do_space_unroll N sh T cs s st)) = st_circ (fst (do_space_unroll N sh T cs s (init_state N))).
+  Proof.
+    intros h s st. destruct (roll_spec _ (Inv_run h _ Inv_init)) as (_ & R1 & R2 & R3 & R4 & R5 & R6).
+    fold st in R1, R2, R3, R4, R5, R6.
+    assert (Ei : is_unrolled st = false) by (unfold is_unrolled; now rewrite R4, R5).
+    assert (Er : do_roll st = st) by (unfold do_roll; now rewrite Ei).
+    split.
+    - unfold do_unroll. rewrite R4, R5. simpl. unfold register. rewrite R2. reflexivity.
+    - unfold do_space_unroll. rewrite R5. simpl. unfold do_space_unroll_fresh. cbv zeta.
+      rewrite Er. simpl. rewrite R2, R3. reflexivity.
   Qed.
 End Histories.
-
-(* ---------------------------------------------------------------- refuted parts of "restores exactly" *)
-Definition ex_prog : list rcmd :=
-  [ mkR 0 [PNum 0; PNum 1] [1] false false false true;
-    mkR 1 [PSym 0; PNum 1] [0; 1] false false false true;
-    mkR 2 [PSym 1] [0] true false false true ].
-
-(* the whole register (including inactive references) is NOT restored *)
-Lemma roll_register_refuted : exists h,
-  st_regs (run_calls [2] ShDefault 3 ex_prog (init_state [2]) h) <> st_regs (init_state [2])
-  /\ last h Lock = Roll.
-Proof. exists [SpaceUnroll 1; Roll]. split; [vm_compute; discriminate|reflexivity]. Qed.
-
-(* the lock flag is lost by the early returns *)
-Lemma lock_refuted : exists h, In Lock h /\
-  st_locked (run_calls [2] ShDefault 3 ex_prog (init_state [2]) h) = false.
-Proof. exists [Lock; Unroll 1; Unroll 1]. split; [now left|reflexivity]. Qed.
-
-(* a second space-unrolling after roll() acts on modes beyond init_num_subsystems *)
-Definition max_mode (c : circ) : nat :=
-  match c with CRolled => 0 | CUnrolled u => fold_right Nat.max 0 (flat_map (fun x => u_modes x) u) end.
-Lemma space_unroll_again_refuted : exists h,
-  let st := run_calls [2] ShDefault 3 ex_prog (init_state [2]) h in
-  (st_init st <= Z.of_nat (max_mode (st_circ st)))%Z.
-Proof. exists [SpaceUnroll 1; Roll; SpaceUnroll 1]. vm_compute. discriminate. Qed.
-
-(* a failed unroll() poisons _unrolled_shots: space_unroll(2) then returns the 1-shot circuit *)
-Lemma stale_shots_refuted : exists h,
-  st_circ (run_calls [2] ShDefault 3 ex_prog (init_state [2]) (h ++ [SpaceUnroll 2]))
-  <> st_circ (run_calls [2] ShDefault 3 ex_prog (init_state [2]) [SpaceUnroll 2]).
-Proof. exists [SpaceUnroll 1; Unroll 2]. vm_compute. discriminate. Qed.
